@@ -136,7 +136,7 @@ impl<C: SymBridge> Lab<C> for SymLab<C> {
         let ds = symcore::decisions_since(dfrom);
         // the rejecting comparison: last non-zero-test comparison that came out "different"
         // (verification equations are often written as `residual == identity`, so zero-tests count)
-        let rej = ds.iter().rev().find(|d| matches!(d.outcome, Outcome::AssumedNe | Outcome::Forked(false) | Outcome::Infeasible));
+        let rej = ds.iter().rev().find(|d| matches!(d.outcome, Outcome::AssumedNe | Outcome::Forked(false) | Outcome::Infeasible | Outcome::KnownNe));
         match rej {
             None => symcore::check(true, &format!("{what}: rejected on structure")),
             Some(d) if d.outcome == Outcome::Infeasible => {
